@@ -83,6 +83,35 @@ def oracle_verdicts(part, cases, impl, shards=C.NPROC):
     return res
 
 
+def directed_search(mod, part, lines, listed_findings):
+    """shrinks each disagreeing case while the implementation and the model still differ on it; every candidate
+    tried on the way is checked by the part's scans; returns (case, impl observation, verdict) of the first candidate
+    on which a scan fails (and no listed finding explains it), or None"""
+    hit = []
+
+    def differs(ls):
+        im = C.run_harness(part.engine, ls, shards=1)
+        mo = C.run_model(part.engine, ls, shards=1)
+        orc = oracle_verdicts(part, ls, im, shards=1)
+        for l, y, x in zip(ls, im, orc):
+            if not x.startswith("1") and not hit:
+                sg = mod.known_signature(part, l, y, x)
+                if sg is None or not all(z in listed_findings for z in sg.split("+")):
+                    hit.append((l, y, x))
+        if hit:
+            return [False] * len(ls)          # stop shrinking
+        return [part.project(l, y) != part.project(l, z) for l, y, z in zip(ls, im, mo)]
+
+    for line in lines:
+        try:
+            shrink(part, line, differs)
+        except C.Broken:
+            continue
+        if hit:
+            return hit[0]
+    return None
+
+
 def run(pid, tier, seed, replay=None):
     t0 = time.time()
     mod = importlib.import_module("props." + pid)
@@ -185,6 +214,17 @@ def run(pid, tier, seed, replay=None):
             "vm_compute_cross_checked": nvm, "unstable_observations_retaken": unstable, "histogram": hist, "wall_s": round(time.time() - t1, 1),
             "rule": part.rule,
         }
+        # directed search: the model and the implementation differ on some case but no scan fails on the cases as
+        # generated -- minimise a few of the differing cases while they still differ and put every intermediate
+        # candidate before the scans (a generated case carries noise -- reused ids, other streams -- about which a
+        # scan, rightly, says nothing; its minimal core is usually clean)
+        if dis and not violations and not known_hits:
+            found = directed_search(mod, part, [cases[i] for i in dis[:4]], listed_findings)
+            if found is not None:
+                c2, a2, o2 = found
+                m2 = C.run_model(part.engine, [c2], shards=1)[0]
+                violations.append((part.name, c2, a2, m2, o2))
+                cov["parts"][part.name]["directed_search"] = {"from_disagreement": True, "case": c2}
         for i in dis[:3]:
             broken.append("correspondence %s/%s: model and implementation differ on case `%s` "
                           "(impl `%s`, model `%s`)" % (part.engine, part.name, cases[i], impl[i], model[i]))
